@@ -50,6 +50,28 @@ class ExecutorStats:
         self.start_order = []
         self.job_thread = {}         # (pool, job) -> thread id
         self.max_workers_seen = []
+        self.events = []             # ("start" | "done", (pool, job)) in simulated-time order
+
+    def reordered(self):
+        """some pool completed its jobs in an order different from the submission order"""
+        per = {}
+        for p, j in self.completion_order:
+            per.setdefault(p, []).append(j)
+        return any(v != sorted(v) for v in per.values())
+
+    def stalled(self):
+        """some started job was held back while at least two jobs that started LATER ran from start to
+        completion (its worker is the slow / stalled node of this system)"""
+        pos = {}
+        for i, (what, key) in enumerate(self.events):
+            pos[(what, key)] = i
+        jobs = [k for (w, k) in pos if w == "start" and ("done", k) in pos]
+        for j in jobs:
+            sj, dj = pos[("start", j)], pos[("done", j)]
+            inside = sum(1 for k in jobs if k != j and k[0] == j[0] and sj < pos[("start", k)] and pos[("done", k)] < dj)
+            if inside >= 2:
+                return True
+        return False
 
 
 STATS = None  # set by env.simulate()
@@ -149,6 +171,7 @@ class SimExecutor:
             key = (self._pool_id, fut._sim_job)
             if STATS is not None:
                 STATS.start_order.append(key)
+                STATS.events.append(("start", key))
                 STATS.job_thread[key] = s.current.id
             s.yield_point("job_start")
             try:
@@ -162,6 +185,7 @@ class SimExecutor:
             if STATS is not None:
                 fut._sim_done_seq = len(STATS.completion_order)
                 STATS.completion_order.append(key)
+                STATS.events.append(("done", key))
             del fn, args, kwargs
             s.yield_point("job_end")
 
